@@ -26,6 +26,12 @@ Inductive case :=
 (** operations of one instance on one address it did not know before, with the observed
     outcomes: 0 = proceeded, 1 = refused by the local-presence rule, 2 = any other error *)
 | CLocal (ops : list lop) (obs : list N)
+(** the same with the places where the data can live: the instance keeps its data in memory
+    ([memory]) or on disk; every Create/Open carries its [CreateDBOptions.Directory] (unset, the
+    instance's own directory, another directory); [DCloseAll] = the handles obtained so far are
+    closed (observed: 0 when every Close returned nil).  Model: [Address.drun] with
+    [c14_open_falls_back_current]; property: [Address.dlocal_ok] *)
+| CLocalDir (memory : bool) (ops : list dop) (obs : list N)
 (** a store obtained from Create/Open of an address determined for (typ, w): observed root
     and manifest tokens, observed type and write list, and whether the store's address is
     the determined one *)
@@ -56,7 +62,7 @@ Definition out_eqb (a b : outcome (N * list seg)) : bool :=
 
 Definition decode_of (cids : list (N * N)) (n : N) : option N := alookup N.eqb n cids.
 
-Definition decision_code (d : decision) : N := match d with Proceeds => 0 | Refused => 1 end.
+(* [decision_code] (0 = proceeds, 1 = refused) lives in Model/Address.v *)
 
 (** the property on the observed outcomes of one instance: a create is refused by the
     presence rule exactly when this instance created the database before and overwrite is
@@ -112,6 +118,9 @@ Definition check (c : case) : bool * bool :=
     (agree, holds)
   | CLocal ops obs =>
     (listN_eqb (map decision_code (lrun false ops)) obs, local_ok false false ops obs)
+  | CLocalDir memory ops obs =>
+    (listN_eqb (map decision_code (drun c14_open_falls_back_current memory false ops)) obs,
+     dlocal_ok memory false false ops obs)
   | CRecorded root m typ otyp w ow same =>
     let ok := (typ =? otyp) && listN_eqb w ow && same in
     ((if root =? m then ok else true), ok)
